@@ -92,7 +92,8 @@ func longScenarios(c *core.Ctx, hidx int, planLen, ntx int, reps int) []stopScn 
 	return out
 }
 
-var c05PacketKinds = []string{"fin", "rst", "err", "eof", "zerolen", "badseq", "short0", "cut", "inject-rowsquery", "inject-intvar", "inject-rand", "inject-invalid", "cancel-master"}
+var c05PacketKinds = []string{"fin", "rst", "err", "eof", "zerolen", "badseq", "short0", "cut", "inject-rowsquery", "inject-intvar", "inject-rand", "inject-invalid", "cancel-master",
+	"inject-baddecode-before", "inject-baddecode-after", "inject-baddecode-write", "inject-baddecode-delete"}
 
 // stopScenarios enumerates stop cause x stop point x pacing x handler speed.
 func stopScenarios(c *core.Ctx, hidx int, planLen, ntx int, reps int) []stopScn {
@@ -382,7 +383,7 @@ func finishObs(s *run.Session, ob *attemptObs, o attemptOpts) {
 }
 
 func checkC05(c *core.Ctx) {
-	c.SetRule("per small generated history: every packet index x {fin, rst, err, eof, zero-length, out-of-sequence, short, cut, injected unsupported/invalid event, master-side cancel} x pacing {far-ahead, lock-step} x handler {fast, slow}; cancel while the master withholds packet k (reader waiting for the network); cancel while the handler is blocked at transaction j with the master far ahead (reader holding an event); handler error / in-handler cancel at every transaction; mapper failures; 8 kinds of attempts that fail before a connection or reader exists; clean EOF; transport read error — each repeated, in -race builds under GOMAXPROCS 1/2/4/16. Monitors: quiescent-stuck rule on Stream, on the first and second Error(), leftover library goroutines, client socket closed, handler guard (in-flight counter, streamActive), race log. distinct by (history, spec, rep, pass); non-trivial iff the scripted stop was reached")
+	c.SetRule("per small generated history: every packet index x {fin, rst, err, eof, zero-length, out-of-sequence, short, cut, injected unsupported/invalid event, injected well-formed rows event with an undecodable cell in its before / after / only image, master-side cancel} x pacing {far-ahead, lock-step} x handler {fast, slow}; cancel while the master withholds packet k (reader waiting for the network); cancel while the handler is blocked at transaction j with the master far ahead (reader holding an event); handler error / in-handler cancel at every transaction; mapper failures; 8 kinds of attempts that fail before a connection or reader exists; clean EOF; transport read error — each repeated, in -race builds under GOMAXPROCS 1/2/4/16. Monitors: quiescent-stuck rule on Stream, on the first and second Error(), leftover library goroutines, client socket closed, handler guard (in-flight counter, streamActive), race log. distinct by (history, spec, rep, pass); non-trivial iff the scripted stop was reached")
 	c.Assume("Error() is only called after Stream returned")
 	c.Assume("race freedom = no report from the Go race detector on these executions")
 	nh := c.N(3, 30)
